@@ -284,7 +284,8 @@ fn hmc_case(rep: &mut Report, case: u64, g: &mut Sm64) {
 
 fn nuts_case(rep: &mut Report, case: u64, g: &mut Sm64) {
     let mon = "streams";
-    let n_chains = g.range(2, 12);
+    // the statement covers 2..64 chains (construction may switch strategy with the chain count)
+    let n_chains = if g.chance(0.3) { *g.choose(&[15usize, 16, 17, 32, 33, 64]) } else { g.range(2, 24) };
     let dim = g.range(1, 3);
     let seeded = g.chance(0.6);
     let k = g.below(n_chains + 2) as u64;
@@ -325,6 +326,7 @@ fn nuts_case(rep: &mut Report, case: u64, g: &mut Sm64) {
             }
             rep.held();
             rep.distinct(("nuts", n_chains, dim, seeded, seed));
+            rep.distinct_in("NUTS chain counts", n_chains);
         }
     }
 }
